@@ -67,6 +67,8 @@ fn plan(tier: Tier) -> Vec<Workload> {
         Workload::new("random_structured", tier.pick(300_000, 6_000_000) / BATCH),
         Workload::new("text", tier.pick(200_000, 4_000_000) / BATCH),
         Workload::new("programs", tier.pick(100_000, 2_000_000) / BATCH),
+        // very long files with a message on (almost) every line
+        Workload::new("huge", tier.pick(64, 640)),
         // deep nesting through the analyzer, each probe in a child process (an abort cannot be caught in-process)
         Workload::new("depth", (crate::props::c01::CONSTRUCTS.len() * DEPTHS.len()) as u64),
     ]
@@ -225,6 +227,34 @@ fn run_case(ctx: &Ctx, index: u64, rep: &mut Report) {
                 observe(ctx, rep, index, &t, "random_structured");
             }
             rep.evaluations += BATCH - 1;
+        }
+        "huge" => {
+            let n = 900 + rng.usize(1700);
+            let mut lines = Vec::with_capacity(n);
+            for k in 0..n {
+                lines.push(match rng.below(8) {
+                    0 => format!("PRINT {}", k),
+                    1 => format!("{}", 10 + (k % 50)),
+                    2 => format!("{} PRINT \"", k + 1),
+                    3 => format!("{} é", k + 1),
+                    4 => format!("{} X = \"s\"", k + 1),
+                    5 => "   ".to_string(),
+                    6 => format!("{} PRINT U{}", 10 + (k % 50), k),
+                    _ => format!("stray text {}", k),
+                });
+            }
+            let file = lines.join("\n");
+            rep.count("huge.files");
+            match check_file(&file) {
+                Ok((d, t, _)) => {
+                    rep.add("diagnostics_checked", d);
+                    rep.add("tokens_checked", t);
+                    rep.max("max_diagnostics_one_file", d);
+                }
+                Err((sig, why)) => {
+                    ctx.violation(rep, "C05", &sig, index, format!("{} — a file of {} lines with a message on almost every line", why, n), json!({"lines": n, "first_lines": lines.iter().take(8).collect::<Vec<_>>(), "note": "regenerate with --replay"}));
+                }
+            }
         }
         "text" => {
             for _ in 0..BATCH {
